@@ -7,6 +7,7 @@ import StimModel.Core.Bits
 import StimModel.Model.Counts
 import StimModel.Model.Algebra
 import StimModel.Model.FSim
+import StimModel.Model.DemSem
 /-! Line-protocol dispatcher: one request line in, one answer line out. -/
 namespace Stim.Driver
 open Stim Stim.Wire
@@ -555,6 +556,67 @@ def fsimM2d (toks : List String) : String :=
       go 0 rest
   | _ => "bad-request"
 
+def xorClosure (vs : List (List Bool)) : List (List Bool) :=
+  let step (acc : List (List Bool)) : List (List Bool) :=
+    (acc ++ (acc.flatMap fun a => vs.map fun b => xorBits a b)).eraseDups
+  (List.range 4).foldl (fun acc _ => step acc) vs.eraseDups
+
+/-- `demsem check <circuit> <allow_gauge> <approx> <seed> (reject | <dem>)` — is the reported detector error model exactly the
+    circuit's noise pushed onto detectors?  (Fourier-coefficient comparison in exact rationals + support check.) -/
+def demsemCheck (toks : List String) : String :=
+  match parseCircuit toks with
+  | some (c, ag :: ap :: seedS :: rest) =>
+    let allowGauge := ag == "1"
+    let approx := ap == "1"
+    let shape := c.symptomShape
+    let n := shape.1 + shape.2
+    let gauge := c.gaugeSymptoms shape
+    let apps := c.resolvedApps shape
+    let live := apps.filter fun (a, _) => a.any fun (p, _) => p != 0
+    let needsApprox := live.any (·.2)
+    -- a non-deterministic observable is never tolerated; non-deterministic detectors only with allow_gauge_detectors
+    let obsGauge := gauge.any fun v => (v.drop shape.1).any id
+    let overMixed := c.unroll.any fun
+      | .instr g _ args _ => (g == "DEPOLARIZE1" && ratOfBits (args.getD 0 0) > 3/4) || (g == "DEPOLARIZE2" && ratOfBits (args.getD 0 0) > 15/16)
+      | _ => false
+    let hasPC1multi := c.unroll.any fun
+      | .instr g _ args _ => g == "PAULI_CHANNEL_1" && ((args.take 3).filter (fun a => ratOfBits a != 0)).length ≥ 2
+      | _ => false
+    match rest with
+    | ["reject"] =>
+      if (!gauge.isEmpty && !allowGauge) || obsGauge || (needsApprox && !approx) || overMixed then "ok"
+      else "should-accept"
+    | demToks =>
+      match parseDem demToks with
+      | some (m, []) =>
+        if (!gauge.isEmpty && !allowGauge) || obsGauge then "should-reject-nondeterministic"
+        else if overMixed then "should-reject-overmixed"
+        else if needsApprox && !approx && !hasPC1multi then "should-reject-needs-approximation"
+        else
+          let errs := demErrors shape m
+          -- first-order tolerance for approximated disjoint channels
+          let tol : Rat := (live.filter (·.2)).foldl (fun acc (a, _) => let sp := a.foldl (fun s (p, _) => s + p) 0; acc + 4 * sp * sp) (1 / 1000000000)
+          let resolved := live.map (·.1)
+          let bad := (testChars n (seedS.toNat?.getD 0)).find? fun χ =>
+            ratAbs (circuitBias resolved gauge χ - demBias errs χ) > tol
+          match bad with
+          | some χ => "distribution-differs chi=" ++ strOfBits χ
+          | none =>
+            if !gauge.isEmpty then "ok" else
+            let zero (v : List Bool) := v.all (! ·)
+            let closures := resolved.map fun a => xorClosure ((a.filter (·.1 != 0)).map (·.2))
+            let extra := errs.find? fun (p, v) => p != 0 && !zero v && !(closures.any (·.contains v))
+            match extra with
+            | some (_, v) => "spurious-symptom-set " ++ strOfBits v
+            | none =>
+              let missing := resolved.findSome? fun a => a.findSome? fun (p, v) =>
+                if p != 0 && !zero v && !(errs.any fun (q, w) => q != 0 && w == v) && !needsApprox then some v else none
+              match missing with
+              | some v => if hasPC1multi then "ok" else "missing-symptom-set " ++ strOfBits v
+              | none => "ok"
+      | _ => "bad-request"
+  | _ => "bad-request"
+
 def answer (toks : List String) : String :=
   match toks with
   | "tsim" :: "check" :: rest => tsimCheck rest
@@ -566,6 +628,7 @@ def answer (toks : List String) : String :=
   | "alg" :: rest => algCmd rest
   | "fsim" :: "shots" :: rest => fsimShots rest
   | "fsim" :: "m2d" :: rest => fsimM2d rest
+  | "demsem" :: "check" :: rest => demsemCheck rest
   | "circ" :: "counts" :: rest => circCounts rest
   | "circ" :: "shift" :: rest => circShift rest
   | "circ" :: "detcoords" :: rest => circDetCoords rest
